@@ -13,9 +13,9 @@
    the unused-vote arithmetic are one definition used by both, characterised separately below and
    tied to the code by correspondence. *)
 From Coq Require Import ZArith List Bool Lia.
-From VL Require Model.Overhang.
+From VL Require Model.Overhang Model.OverhangByC.
 From VL Require Import Model.Wrappers Proofs.Wrappers_proofs Proofs.TieBreak_proofs Proofs.WrapParts_proofs
-  Proofs.WrapOverhang_proofs.
+  Proofs.WrapOverhang_proofs Proofs.WrapOverhangByC_proofs.
 Import ListNotations.
 Open Scope Z_scope.
 
@@ -251,7 +251,44 @@ Proof.
   intros h p H. inversion H; subst p. reflexivity.
 Qed.
 
+(* ... and by constituency, composed with Model/OverhangByC.v (C15): AdjustedSeatCount(LevelOverhangByConstituency(ce, oe), e),
+   ce and oe any wrapper trees answering with integer distributions (result keys may be Ties), is e evaluated with
+   n + bc_calculate's adjustment *)
+Theorem C14_adjusted_level_byc : forall leaf conv ce oe e fuel votes nat n res prev mx OEm a,
+  totals_s votes = Ok nat ->
+  run_spec leaf conv ce votes (KW (Some (VInt n)) None (Some mx) None None None) = Ok (VDict (of_nested res)) ->
+  (forall h pr, OEm h = OverhangByC.Ok pr ->
+                run_spec leaf conv oe nat (KW (Some (VInt h)) None (Some mx) None None None) = Ok (VDict (of_kz pr))) ->
+  OverhangByC.bc_calculate key_eqb OEm (OverhangByC.Ok res) fuel n prev = OverhangByC.BC_ok a ->
+  run_spec leaf conv (AdjLevelC ce oe e fuel) votes (sa_npm (VInt n) (VDict (of_nested prev)) mx)
+  = run_spec leaf conv e votes (sa_npm (VInt (n + a)) (VDict (of_nested prev)) mx).
+Proof. exact adjusted_levelc_tree. Qed.
+
+(* satisfiable: one constituency where party 1 gets 2 proportional seats and holds 1, party 2 holds 3 seats without any
+   second round vote; the overall evaluator gives every seat to party 1 - the house of 4 grows by one seat *)
+Definition byc_leaf (l : positive) (v : val) (args : list (option val)) : res val :=
+  match l with
+  | 1%positive => Ok (VDict [(KC 101, VDict [(KC 1, VInt 2)])])
+  | _ => match args with Some (VInt h) :: _ => Ok (VDict [(KC 1, VInt h)]) | _ => raise E_TYPE end
+  end.
+Example C14_adjusted_byc_nonvacuous :
+  let votes := VDict [(KC 101, VDict [(KC 1, VInt 10)])] in
+  let res := [(101%positive, [(KC 1, 2)])] in
+  let prev := [(101%positive, [(KC 1, 1); (KC 2, 3)])] in
+  let OEm := fun h : Z => OverhangByC.Ok [(KC 1, h)] in
+  totals_s votes = Ok (VDict [(KC 1, VInt 10)]) /\
+  run_spec byc_leaf id_conv (Leaf 1 LDist) votes (KW (Some (VInt 4)) None (Some (VDict [])) None None None) = Ok (VDict (of_nested res)) /\
+  (forall h pr, OEm h = OverhangByC.Ok pr ->
+                run_spec byc_leaf id_conv (VSys (Leaf 2 LDist)) (VDict [(KC 1, VInt 10)]) (KW (Some (VInt h)) None (Some (VDict [])) None None None)
+                = Ok (VDict (of_kz pr))) /\
+  OverhangByC.bc_calculate key_eqb OEm (OverhangByC.Ok res) 10 4 prev = OverhangByC.BC_ok 1.
+Proof.
+  split; [reflexivity|]. split; [reflexivity|]. split; [|reflexivity].
+  intros h pr H. inversion H; subst pr. reflexivity.
+Qed.
+
 Print Assumptions C14_compose_partial.
+Print Assumptions C14_adjusted_level_byc.
 Print Assumptions C14_adjusted_allow.
 Print Assumptions C14_adjusted_level.
 Print Assumptions C14_totals_declarative.
